@@ -40,10 +40,27 @@ func baselineFuncs() map[string]bool {
 	m := map[string]bool{}
 	for _, l := range strings.Split(baselineFuncsTxt, "\n") {
 		if l = strings.TrimSpace(l); l != "" {
-			m[l] = true
+			name, _, _ := strings.Cut(l, "\t")
+			m[name] = true
 		}
 	}
 	return m
+}
+
+var baselineSigCache map[string][]string
+
+// BaselineParams returns the parameter names the function had when the rules were written.
+func BaselineParams(fn string) []string {
+	if baselineSigCache == nil {
+		baselineSigCache = map[string][]string{}
+		for _, l := range strings.Split(baselineFuncsTxt, "\n") {
+			name, ps, ok := strings.Cut(strings.TrimSpace(l), "\t")
+			if ok && ps != "" {
+				baselineSigCache[name] = strings.Split(ps, ",")
+			}
+		}
+	}
+	return baselineSigCache[fn]
 }
 
 // declName renders a FuncDecl the way FnName does for the outer function.
@@ -83,7 +100,17 @@ func declName(pkgShort string, fd *ast.FuncDecl, info *types.Info) string {
 // ScanDeclNames lists, purely syntactically, the names (FnName form) of all
 // function declarations in non-test .go files under repo, whatever their build tags.
 func ScanDeclNames(repo string) (map[string]bool, error) {
+	m, err := ScanDecls(repo)
 	out := map[string]bool{}
+	for k := range m {
+		out[k] = true
+	}
+	return out, err
+}
+
+// ScanDecls is ScanDeclNames with, per function, the list of its parameter names (receiver excluded).
+func ScanDecls(repo string) (map[string][]string, error) {
+	out := map[string][]string{}
 	fset := token.NewFileSet()
 	err := filepath.WalkDir(repo, func(path string, d os.DirEntry, err error) error {
 		if err != nil {
@@ -110,8 +137,17 @@ func ScanDeclNames(repo string) (map[string]bool, error) {
 			if !ok {
 				continue
 			}
+			var params []string
+			for _, f := range fd.Type.Params.List {
+				if len(f.Names) == 0 {
+					params = append(params, "_")
+				}
+				for _, n := range f.Names {
+					params = append(params, n.Name)
+				}
+			}
 			if fd.Recv == nil || len(fd.Recv.List) == 0 {
-				out[pkgShort+"."+fd.Name.Name] = true
+				out[pkgShort+"."+fd.Name.Name] = params
 				continue
 			}
 			t := fd.Recv.List[0].Type
@@ -141,9 +177,9 @@ func ScanDeclNames(repo string) (map[string]bool, error) {
 			}
 			n := pkgShort + "." + tn
 			if ptr {
-				out["(*"+n+")."+fd.Name.Name] = true
+				out["(*"+n+")."+fd.Name.Name] = params
 			} else {
-				out["("+n+")."+fd.Name.Name] = true
+				out["("+n+")."+fd.Name.Name] = params
 			}
 		}
 		return nil
@@ -420,9 +456,28 @@ func gotoInline(fset *token.FileSet, pk *packages.Package, callerFile *ast.File,
 	}
 	// reject defer / recover / named results / nested func literals containing return rewriting issues
 	bad := false
+	// named results become locals of the inlined block; a bare return yields them
+	var named []string
+	var namedDecl strings.Builder
 	if fd.Type.Results != nil {
+		ri := 0
 		for _, f := range fd.Type.Results.List {
-			if len(f.Names) > 0 {
+			for _, n := range f.Names {
+				named = append(named, n.Name)
+				fmt.Fprintf(&namedDecl, "var %s %s\n_ = %s\n", n.Name, types.TypeString(sig.Results().At(ri).Type(), func(p *types.Package) string {
+					if p == pk.Types {
+						return ""
+					}
+					return p.Name()
+				}), n.Name)
+				ri++
+			}
+		}
+		if len(named) > 0 && len(named) != sig.Results().Len() {
+			bad = true
+		}
+		for _, n := range named {
+			if n == "_" {
 				bad = true
 			}
 		}
@@ -593,7 +648,9 @@ func gotoInline(fset *token.FileSet, pk *packages.Package, callerFile *ast.File,
 				return false
 			case *ast.ReturnStmt:
 				var t string
-				if len(x.Results) == 0 {
+				if len(x.Results) == 0 && len(named) > 0 {
+					t = "{ " + strings.Join(rnames, ", ") + " = " + strings.Join(named, ", ") + "; goto end" + suffix + " }"
+				} else if len(x.Results) == 0 {
 					t = "{ goto end" + suffix + " }"
 				} else {
 					var rs []string
@@ -615,7 +672,11 @@ func gotoInline(fset *token.FileSet, pk *packages.Package, callerFile *ast.File,
 	for _, e := range edits {
 		body = body[:e.from-bodyStart] + e.text + body[e.to-bodyStart:]
 	}
+	pre.WriteString(namedDecl.String())
 	pre.WriteString(body)
+	if len(named) > 0 {
+		// falling off the end is impossible for a function with results, but keep the block well-formed
+	}
 	pre.WriteString("\n}\n")
 	// the original statement with the call replaced by the result variables
 	stmtSrc := string(callerContent[off(stmt.Pos()):off(stmt.End())])
